@@ -33,6 +33,10 @@ type c05Case struct {
 	Decls        []*hdecl `json:"decls"`
 	Units        []string `json:"units"`
 	Variant      int      `json:"variant"`
+	// Before (csv2 / fixedlength2): inputs read earlier through readers of the SAME schema object, as
+	// (units, variant) pairs; the declarations of a schema are shared by all its readers, and what one input
+	// leaves in them must not matter for the next
+	Before []string `json:"earlier_inputs_of_the_same_schema,omitempty"`
 }
 
 // hdecl is the JSON form of ref.HDecl.
@@ -570,11 +574,19 @@ func c05CheckCase(cs c05Case) (sig, detail string) {
 		if iv == c05VariantDefaultsOmitted {
 			iv = 0
 		}
+		for _, in := range cs.Before {
+			runFlat(mk, in, nil)
+		}
 		real = runFlat(mk, flatInput(cs.Driver, units, iv), nil)
 		loose = true
 	}
 	if sameObs(real, want, loose) {
 		return "", "agree: " + real.String()
+	}
+	if len(cs.Before) > 0 {
+		return cs.Driver + ":result-depends-on-earlier-inputs-of-the-same-schema", fmt.Sprintf(
+			"hierarchy %s\nunits %v variant %d, read after %d earlier input(s) of the same schema object (the last one: %q); alone the input is read as the reference says\n-- implementation:\n%s\n-- reference:\n%s",
+			ref.Describe(decls), cs.Units, cs.Variant, len(cs.Before), cs.Before[len(cs.Before)-1], real, want)
 	}
 	if cs.Driver == "edi" && cs.FilterSerial > 0 && sameObs(real, c05FilterOut(refObs2(decls, units, true), cs.FilterSerial), false) {
 		return "edi:top-level-sequence-restarts-after-completion", fmt.Sprintf(
@@ -700,6 +712,9 @@ func c05Run(occFull, occRed [][2]int) func(c *core.Ctx) {
 				}
 				c.Count("states", 1) // one matcher configuration (hierarchy) fully explored
 				var mk, mkOmit flatReaderFactory
+				// inputs read so far through the two schema objects of this hierarchy (logged by the factories)
+				var earlier, earlierOmit []string
+				histLen := map[bool]int{}
 				work := decls
 				if pl.driver == "csv2" || pl.driver == "fixedlength2" {
 					work = fromJSONDecls(toJSONDecls(decls))
@@ -715,6 +730,22 @@ func c05Run(occFull, occRed [][2]int) func(c *core.Ctx) {
 							c.HarnessError("generated schema rejected: " + err.Error() + "\n" + flatSchema(pl.driver, work, true))
 							return true
 						}
+					}
+				}
+				if mk != nil {
+					inner := mk
+					mk = func(in string) (fileformat.FormatReader, error) {
+						histLen[false] = len(earlier)
+						earlier = append(earlier, in)
+						return inner(in)
+					}
+				}
+				if mkOmit != nil {
+					inner := mkOmit
+					mkOmit = func(in string) (fileformat.FormatReader, error) {
+						histLen[true] = len(earlierOmit)
+						earlierOmit = append(earlierOmit, in)
+						return inner(in)
 					}
 				}
 				// the same hierarchy spelled with every min / max that equals the format's default left out
@@ -756,9 +787,27 @@ func c05Run(occFull, occRed [][2]int) func(c *core.Ctx) {
 						c.Count("transitions", 1)
 						c.Count("traces_validated_against_impl", 1)
 						c.EvalN(pl.driver+"|"+want.Terminal+"|"+strconv.Itoa(len(want.Deliveries)), 1)
+						// what the same schema object (mk, or mkOmit for the defaults-omitted variant) had read before
+						hist := earlier
+						if v == c05VariantDefaultsOmitted {
+							hist = earlierOmit
+						}
+						if n := histLen[v == c05VariantDefaultsOmitted]; n < len(hist) {
+							hist = hist[:n]
+						}
 						if !sameObs(real, want, loose) {
 							cs := c05Case{Driver: pl.driver, Hier: ref.Describe(work), Decls: toJSONDecls(decls), Units: append([]string(nil), names...), Variant: v}
 							sig, detail := c05CheckCase(cs)
+							if sig == "" && pl.driver != "hier" && pl.driver != "edi" {
+								// the readers of one hierarchy come from ONE schema object: does the disagreement come back
+								// after the input read just before this one, or after all inputs read so far?
+								for _, h := range [][]string{hist[max(0, len(hist)-1):], hist[max(0, len(hist)-40):], hist} {
+									cs.Before = h
+									if sig, detail = c05CheckCase(cs); sig != "" {
+										break
+									}
+								}
+							}
 							if sig == "" {
 								sig, detail = "harness:not-reproducible", "disagreement did not reproduce from the serialised case: "+ref.Describe(work)
 							}
